@@ -91,8 +91,15 @@ def _load_chunk(args):
                 text = text + "\r\n"
         else:
             text = "\r\n".join(texts) + "\r\n"
-        for _ in range(rng.randint(0, 2)):
-            text = corrupt(rng, text)
+        pre = 0
+        if route == "create" and rng.random() < 0.3:
+            # the SAME source text is first compiled by another class from an offset behind some junk (valid from there); read
+            # from offset 0 it is no rule: the verdict must not be remembered under the text alone
+            junk = rng.choice(["x ", "@", "a b ", "1", "x foo ", "=", "zz\t"])
+            text, pre = junk + text, len(junk)
+        else:
+            for _ in range(rng.randint(0, 2)):
+                text = corrupt(rng, text)
         if route in ("load_strict", "load_deco") and rng.random() < 0.5:
             text = text.replace("\r\n", "\n")
         if not text:
@@ -108,15 +115,20 @@ def _load_chunk(args):
         else:
             seen = text
             q = "parseall 0"
-        cases.append((route, text, seen, q))
+        cases.append((route, text, seen, q, pre))
     lines = list(glines)
-    for route, text, seen, q in cases:
+    for route, text, seen, q, pre in cases:
         c = lib.cps(seen)
         lines.append(q + ((" " + c) if c else ""))
     out = lib.run_driver(lines)[1:]
     res = []
-    for (route, text, seen, q), model in zip(cases, out):
+    for (route, text, seen, q, pre), model in zip(cases, out):
         cls = type("C12x", (P.Rule,), {})
+        if pre:
+            try:
+                type("C12pre", (P.Rule,), {}).create(text, pre)
+            except Exception:  # noqa
+                pass
         before = registry_snapshot(P)
         try:
             if route == "create":
